@@ -101,13 +101,16 @@ Proof.
 Qed.
 
 (* ---------- Go's derivations on a bare tape ---------- *)
+Lemma ok_pair_inj {A B} (a a' : A) (b b' : B) : @Ok (A * B) (a, b) = Ok (a', b') -> a = a' /\ b = b'.
+Proof. intros H. inversion H. auto. Qed.
+
 Lemma rl_float64 : raw_local tape_float64.
 Proof.
   intros t. induction t as [|x t IH]; intros a t' H; cbn [tape_float64] in H; [discriminate|].
   destruct (PrimFloat.eqb (PrimFloat.div (f_of_Z x) two63) 1) eqn:E.
   - destruct (IH _ _ H) as [used [-> Hu]]. exists (x :: used). split; [reflexivity|].
     intros u. cbn [app tape_float64]. rewrite E. apply Hu.
-  - injection H as <- <-. exists [x]. split; [reflexivity|].
+  - apply ok_pair_inj in H; destruct H as [<- <-]. exists [x]. split; [reflexivity|].
     intros u. cbn [app tape_float64]. rewrite E. reflexivity.
 Qed.
 
@@ -120,7 +123,7 @@ Proof.
   - destruct (PrimFloat.eqb (round32 (PrimFloat.div (f_of_Z x) two63)) 1) eqn:E2.
     + destruct (IH _ _ H) as [used [-> Hu]]. exists (x :: used). split; [reflexivity|].
       intros u. cbn [app tape_float32]. rewrite E, E2. apply Hu.
-    + injection H as <- <-. exists [x]. split; [reflexivity|].
+    + apply ok_pair_inj in H; destruct H as [<- <-]. exists [x]. split; [reflexivity|].
       intros u. cbn [app tape_float32]. rewrite E, E2. reflexivity.
 Qed.
 
@@ -130,7 +133,7 @@ Proof.
   destruct (Z.gtb (int31_of x) mx) eqn:E.
   - destruct (IH _ _ H) as [used [-> Hu]]. exists (x :: used). split; [reflexivity|].
     intros u. cbn [app tape_int31n_rej]. rewrite E. apply Hu.
-  - injection H as <- <-. exists [x]. split; [reflexivity|].
+  - apply ok_pair_inj in H; destruct H as [<- <-]. exists [x]. split; [reflexivity|].
     intros u. cbn [app tape_int31n_rej]. rewrite E. reflexivity.
 Qed.
 
@@ -138,7 +141,7 @@ Lemma rl_int31n n : raw_local (tape_int31n n).
 Proof.
   intros t a t' H. unfold tape_int31n in *.
   destruct (Z.eqb (Z.land n (n - 1)) 0).
-  - destruct t as [|x t]; [discriminate|]. injection H as <- <-.
+  - destruct t as [|x t]; [discriminate|]. apply ok_pair_inj in H; destruct H as [<- <-].
     exists [x]. split; [reflexivity|]. intros u. reflexivity.
   - apply rl_int31n_rej in H. exact H.
 Qed.
@@ -152,14 +155,14 @@ Qed.
 Lemma rl_randsign : raw_local tape_randsign.
 Proof.
   intros t a t' H. unfold tape_randsign in *. destruct t as [|x t]; [discriminate|].
-  injection H as <- <-. exists [x]. split; [reflexivity|]. intros u. reflexivity.
+  apply ok_pair_inj in H; destruct H as [<- <-]. exists [x]. split; [reflexivity|]. intros u. reflexivity.
 Qed.
 
 Lemma rl_roulette probs : raw_local (tape_roulette probs).
 Proof.
   intros t a t' H. unfold tape_roulette in *.
   destruct (tape_float64 t) as [[f t1]| | | | |] eqn:E; cbn [bind] in H; try discriminate.
-  injection H as <- <-. destruct (rl_float64 _ _ _ E) as [used [-> Hu]].
+  apply ok_pair_inj in H; destruct H as [<- <-]. destruct (rl_float64 _ _ _ E) as [used [-> Hu]].
   exists used. split; [reflexivity|]. intros u. rewrite Hu. reflexivity.
 Qed.
 
@@ -167,11 +170,11 @@ Lemma rl_random_activation o : raw_local (tape_random_activation o).
 Proof.
   intros t a t' H. unfold tape_random_activation in *.
   destruct (o_activators o) as [|a0 [|a1 acts]]; [discriminate| |].
-  - injection H as <- <-. exists []. split; [reflexivity|]. intros u. reflexivity.
+  - apply ok_pair_inj in H; destruct H as [<- <-]. exists []. split; [reflexivity|]. intros u. reflexivity.
   - destruct (negb _); [discriminate|].
     destruct (tape_roulette (o_activator_probs o) t) as [[i t1]| | | | |] eqn:E; cbn [bind] in H; try discriminate.
     destruct (rl_roulette _ _ _ _ E) as [used [-> Hu]].
-    destruct (_ || _) eqn:E2; [discriminate|]. injection H as <- <-.
+    destruct (_ || _) eqn:E2; [discriminate|]. apply ok_pair_inj in H; destruct H as [<- <-].
     exists used. split; [reflexivity|]. intros u. rewrite Hu. cbn [bind]. rewrite E2. reflexivity.
 Qed.
 
@@ -278,3 +281,358 @@ Proof. unfold connect_one. tl_auto. Qed.
 Lemma tl_mutate_connect_sensors g : tape_local (mutate_connect_sensors g).
 Proof. unfold mutate_connect_sensors. tl_auto. Qed.
 #[export] Hint Resolve tl_mutate_connect_sensors : tl.
+
+(* ---------- mutateAddLink: the redraw loop and its tape-length fuel ---------- *)
+Lemma tl_pick_distinct fuel n first : tape_local (pick_distinct fuel n first).
+Proof. induction fuel as [|f IH]; cbn [pick_distinct]; tl_auto. Qed.
+#[export] Hint Resolve tl_pick_distinct : tl.
+
+(* a successful draw strictly shortens the tape *)
+Lemma tape_intn_shorter n t a t' : tape_intn n t = Ok (a, t') -> (length t' < length t)%nat.
+Proof.
+  intros H. destruct (rl_intn n _ _ _ H) as [used [-> _]].
+  destruct used as [|x used].
+  - cbn [app] in H. unfold tape_intn, tape_int31n in H.
+    destruct (Z.leb n 0); [discriminate|]. destruct (Z.eqb _ 0).
+    + destruct t'; [discriminate|]. apply ok_pair_inj in H. destruct H as [_ H].
+      exfalso. apply (f_equal (@length Z)) in H. cbn in H. lia.
+    + exfalso. revert H. generalize (2147483647 - 2147483648 mod n). intros mx H.
+      assert (G : forall l a l', tape_int31n_rej n mx l = Ok (a, l') -> (length l' < length l)%nat).
+      { induction l as [|y l IH]; intros b l' Hl; cbn [tape_int31n_rej] in Hl; [discriminate|].
+        destruct (Z.gtb _ _).
+        - apply IH in Hl. cbn. lia.
+        - apply ok_pair_inj in Hl. destruct Hl as [_ <-]. cbn. lia. }
+      apply G in H. lia.
+  - rewrite app_length. cbn. lia.
+Qed.
+
+Lemma r_intn_shorter n s a s' : r_intn n s = Ok (a, s') -> (length (s_tape s') < length (s_tape s))%nat.
+Proof.
+  intros H. apply on_tape_ok in H. destruct H as [t' [H ->]]. cbn [s_tape].
+  eapply tape_intn_shorter; eauto.
+Qed.
+
+Lemma r_float64_shorter s a s' : r_float64 s = Ok (a, s') -> (length (s_tape s') < length (s_tape s))%nat.
+Proof.
+  intros H. apply on_tape_ok in H. destruct H as [t' [H ->]]. cbn [s_tape].
+  apply tape_float64_suffix in H. destruct H as [p [Hp ->]]. rewrite app_length.
+  destruct p; [congruence|]. cbn. lia.
+Qed.
+
+(* fuel irrelevance: any fuel at least as large as the number of consumed cells gives the same run *)
+Lemma pick_distinct_fuel n first : forall f s r s',
+    pick_distinct f n first s = Ok (r, s') ->
+    (length (s_tape s') <= length (s_tape s))%nat /\
+    forall f', (length (s_tape s) - length (s_tape s') <= f')%nat -> pick_distinct f' n first s = Ok (r, s').
+Proof.
+  induction f as [|f IH]; intros s r s' H; cbn [pick_distinct] in H; [discriminate|].
+  apply bindM_ok in H. destruct H as [a [s1 [H1 H2]]].
+  apply bindM_ok in H2. destruct H2 as [b0 [s2 [H3 H4]]].
+  pose proof (r_intn_shorter _ _ _ _ H1) as L1.
+  pose proof (r_intn_shorter _ _ _ _ H3) as L2.
+  destruct (Z.eqb a (first + b0)) eqn:E.
+  - destruct (IH _ _ _ H4) as [L3 Hf]. split; [lia|].
+    intros f' Hf'. destruct f' as [|f'']; [lia|]. cbn [pick_distinct].
+    unfold bindM at 1. rewrite H1. unfold bindM at 1. rewrite H3. rewrite E. apply Hf. lia.
+  - apply ret_ok in H4. destruct H4 as [<- <-]. split; [lia|].
+    intros f' Hf'. destruct f' as [|f'']; [lia|]. cbn [pick_distinct].
+    unfold bindM at 1. rewrite H1. unfold bindM at 1. rewrite H3. rewrite E. reflexivity.
+Qed.
+
+(* [pick_pair] after its fuel has been read *)
+Definition pick_pair_body (do_recur : bool) (n first : Z) (fuel : nat) : @M st (Z * Z) :=
+  if do_recur then
+    let! r := r_float64 in
+    if PrimFloat.ltb half r then
+      let! a0 := r_intn (n - first) in
+      ret (first + a0, first + a0)
+    else pick_distinct fuel n first
+  else pick_distinct fuel n first.
+
+Lemma pick_pair_unfold do_recur n first s :
+  pick_pair do_recur n first s = pick_pair_body do_recur n first (length (s_tape s)) s.
+Proof. reflexivity. Qed.
+
+Lemma tl_pick_pair_body do_recur n first fuel : tape_local (pick_pair_body do_recur n first fuel).
+Proof. unfold pick_pair_body. tl_auto. Qed.
+
+Lemma pick_pair_body_fuel do_recur n first f s r s' :
+  pick_pair_body do_recur n first f s = Ok (r, s') ->
+  forall f', (length (s_tape s) - length (s_tape s') <= f')%nat ->
+             pick_pair_body do_recur n first f' s = Ok (r, s').
+Proof.
+  unfold pick_pair_body. intros H f' Hf'. destruct do_recur.
+  - apply bindM_ok in H. destruct H as [x [s1 [H1 H2]]].
+    unfold bindM at 1. rewrite H1.
+    destruct (PrimFloat.ltb half x); [exact H2|].
+    pose proof (r_float64_shorter _ _ _ H1) as L1.
+    destruct (pick_distinct_fuel _ _ _ _ _ _ H2) as [L2 Hf]. apply Hf. lia.
+  - destruct (pick_distinct_fuel _ _ _ _ _ _ H) as [L2 Hf]. apply Hf. lia.
+Qed.
+
+Lemma tl_pick_pair do_recur n first : tape_local (pick_pair do_recur n first).
+Proof.
+  intros t e a t' e' H. rewrite pick_pair_unfold in H. cbn [s_tape] in H.
+  destruct (tl_pick_pair_body _ _ _ _ _ _ _ _ _ H) as [used [-> Hu]].
+  exists used. split; [reflexivity|]. intros u. rewrite pick_pair_unfold. cbn [s_tape].
+  eapply pick_pair_body_fuel; [apply Hu|]. cbn [s_tape]. lia.
+Qed.
+#[export] Hint Resolve tl_pick_pair : tl.
+
+Lemma tl_add_link_tries tries do_recur g n first :
+  forall last_pair, tape_local (add_link_tries tries do_recur g n first last_pair).
+Proof. induction tries as [|k IH]; intros last_pair; cbn [add_link_tries]; tl_auto. Qed.
+#[export] Hint Resolve tl_add_link_tries : tl.
+
+Lemma tl_mutate_add_link o g : tape_local (mutate_add_link o g).
+Proof. unfold mutate_add_link. tl_auto. Qed.
+#[export] Hint Resolve tl_mutate_add_link : tl.
+
+(* ---------- mutateAddNode ---------- *)
+Lemma tl_pick_gene_small g l : forall i, tape_local (pick_gene_small g l i).
+Proof. induction l as [|x l IH]; intros i; cbn [pick_gene_small]; tl_auto. Qed.
+Lemma tl_pick_gene_big tries g : tape_local (pick_gene_big tries g).
+Proof. induction tries as [|k IH]; cbn [pick_gene_big]; tl_auto. Qed.
+#[export] Hint Resolve tl_pick_gene_small tl_pick_gene_big : tl.
+
+Lemma tl_mutate_add_node o g : tape_local (mutate_add_node o g).
+Proof. unfold mutate_add_node. tl_auto. Qed.
+#[export] Hint Resolve tl_mutate_add_node : tl.
+
+(* ---------- model/Mate.v ---------- *)
+Lemma tl_disable_draw x1 x2 : tape_local (disable_draw x1 x2).
+Proof. unfold disable_draw. tl_auto. Qed.
+Lemma tl_pick_gt_half {A} (a b : A) : tape_local (pick_gt_half a b).
+Proof. unfold pick_gt_half. tl_auto. Qed.
+#[export] Hint Resolve tl_disable_draw tl_pick_gt_half : tl.
+
+Lemma tl_avg_gene g og x1 x2 : tape_local (avg_gene g og x1 x2).
+Proof. unfold avg_gene. tl_auto. Qed.
+#[export] Hint Resolve tl_avg_gene : tl.
+
+Lemma tl_multipoint_loop fuel avg g og nt p1b :
+  forall l1 l2 acc, tape_local (multipoint_loop fuel avg g og nt p1b l1 l2 acc).
+Proof. induction fuel as [|f IH]; intros l1 l2 acc; cbn [multipoint_loop]; tl_auto. Qed.
+#[export] Hint Resolve tl_multipoint_loop : tl.
+
+Lemma tl_mate_multipoint_gen avg g og id f1 f2 : tape_local (mate_multipoint_gen avg g og id f1 f2).
+Proof. unfold mate_multipoint_gen. tl_auto. Qed.
+Lemma tl_mate_multipoint g og id f1 f2 : tape_local (mate_multipoint g og id f1 f2).
+Proof. apply tl_mate_multipoint_gen. Qed.
+Lemma tl_mate_multipoint_avg g og id f1 f2 : tape_local (mate_multipoint_avg g og id f1 f2).
+Proof. apply tl_mate_multipoint_gen. Qed.
+
+Lemma tl_singlepoint_loop fuel g a b nt cross :
+  forall l1 l2 counter chosen_set acc,
+    tape_local (singlepoint_loop fuel g a b nt cross l1 l2 counter chosen_set acc).
+Proof. induction fuel as [|f IH]; intros l1 l2 counter chosen_set acc; cbn [singlepoint_loop]; tl_auto. Qed.
+#[export] Hint Resolve tl_singlepoint_loop : tl.
+
+Lemma tl_mate_singlepoint g og id : tape_local (mate_singlepoint g og id).
+Proof. unfold mate_singlepoint. tl_auto. Qed.
+#[export] Hint Resolve tl_mate_multipoint_gen tl_mate_multipoint tl_mate_multipoint_avg tl_mate_singlepoint : tl.
+
+(* ---------- model/Population.v ---------- *)
+Lemma tl_give_loop o sorted : forall block_index blocks acc, tape_local (give_loop o sorted block_index blocks acc).
+Proof. induction sorted as [|id r IH]; intros block_index blocks acc; cbn [give_loop]; tl_auto. Qed.
+#[export] Hint Resolve tl_give_loop : tl.
+
+Lemma tl_give_babies o p sorted : tape_local (give_babies o p sorted).
+Proof. unfold give_babies. tl_auto. Qed.
+#[export] Hint Resolve tl_give_babies : tl.
+
+Lemma tl_prepare o p : tape_local (prepare o p).
+Proof. unfold prepare. tl_auto. Qed.
+#[export] Hint Resolve tl_prepare : tl.
+
+Lemma tl_mutate_baby o g : tape_local (mutate_baby o g).
+Proof. unfold mutate_baby. tl_auto. Qed.
+#[export] Hint Resolve tl_mutate_baby : tl.
+
+Lemma tl_pick_other_species tries self sorted : forall cur, tape_local (pick_other_species tries self sorted cur).
+Proof. induction tries as [|k IH]; intros cur; cbn [pick_other_species]; tl_auto. Qed.
+#[export] Hint Resolve tl_pick_other_species : tl.
+
+Lemma tl_one_baby o generation all_species sorted s count rs :
+  tape_local (one_baby o generation all_species sorted s count rs).
+Proof. unfold one_baby. tl_auto. Qed.
+#[export] Hint Resolve tl_one_baby : tl.
+
+Lemma tl_reproduce_loop n o generation all_species sorted s :
+  forall count rs, tape_local (reproduce_loop n o generation all_species sorted s count rs).
+Proof. induction n as [|k IH]; intros count rs; cbn [reproduce_loop]; tl_auto. Qed.
+#[export] Hint Resolve tl_reproduce_loop : tl.
+
+Lemma tl_reproduce_species o generation all_species sorted s h key :
+  tape_local (reproduce_species o generation all_species sorted s h key).
+Proof. unfold reproduce_species. tl_auto. Qed.
+#[export] Hint Resolve tl_reproduce_species : tl.
+
+Lemma tl_reproduce_all o generation all_species sorted best_id l :
+  forall h key babies best_rep,
+    tape_local (reproduce_all o generation all_species sorted best_id l h key babies best_rep).
+Proof. induction l as [|s l IH]; intros h key babies best_rep; cbn [reproduce_all]; tl_auto. Qed.
+#[export] Hint Resolve tl_reproduce_all : tl.
+
+Lemma tl_reproduce o generation p sorted x : tape_local (reproduce o generation p sorted x).
+Proof. unfold reproduce. tl_auto. Qed.
+#[export] Hint Resolve tl_reproduce : tl.
+
+(* finalizeReproduction ends with a raw state function: the record of innovations is forgotten,
+   the tape is passed through *)
+Lemma tl_finalize_tail {A} (c : bool) (v : A) :
+  tape_local (fun s : st =>
+                if c then GoErr 75
+                else Ok (v, {| s_tape := s_tape s;
+                               s_env := {| innovs := []; next_innov := next_innov (s_env s);
+                                           next_node := next_node (s_env s) |} |})).
+Proof.
+  intros t e a t' e' H. destruct c; [discriminate|]. cbn [s_tape s_env] in H.
+  injection H as <- <- <-. exists []. split; [reflexivity|]. intros u. reflexivity.
+Qed.
+
+Lemma tl_finalize p x : tape_local (finalize p x).
+Proof. unfold finalize. tl_auto. apply tl_finalize_tail. Qed.
+#[export] Hint Resolve tl_finalize : tl.
+
+Lemma tl_next_epoch o generation p x : tape_local (next_epoch o generation p x).
+Proof. unfold next_epoch. tl_auto. Qed.
+
+Lemma tl_spawn_loop n g : forall count acc, tape_local (spawn_loop n g count acc).
+Proof. induction n as [|k IH]; intros count acc; cbn [spawn_loop]; tl_auto. Qed.
+#[export] Hint Resolve tl_spawn_loop : tl.
+
+Lemma tl_new_population o g : tape_local (new_population o g).
+Proof. unfold new_population. tl_auto. Qed.
+#[export] Hint Resolve tl_next_epoch tl_new_population : tl.
+
+(* ---------- whole histories ---------- *)
+(* what a user of the library does: spawn a population, then, generation after generation, let the
+   evaluator assign fitness values (here: a given list per generation, in Population.Organisms
+   order) and turn the epoch over with the sequential executor.  The value is the list of all
+   populations: the spawned one and the one after every epoch. *)
+Fixpoint run_epochs (o : options) (generation : Z) (p : population) (x : executor)
+         (fits : list (list float)) : @M st (list population) :=
+  match fits with
+  | [] => ret []
+  | f :: rest =>
+    let! h := lift (set_fitness (p_heap p) (p_orgs p) f) in
+    let! r := next_epoch o generation (p_with_heap p h) x in
+    let! ps := run_epochs o (generation + 1) (fst r) (snd r) rest in
+    ret (fst r :: ps)
+  end.
+
+Definition history (o : options) (g : genome) (fits : list (list float)) : @M st (list population) :=
+  let! p := new_population o g in
+  let! ps := run_epochs o 0 p {| x_best_id := 0; x_best_reproduced := false |} fits in
+  ret (p :: ps).
+
+Lemma tl_run_epochs o fits : forall generation p x, tape_local (run_epochs o generation p x fits).
+Proof. induction fits as [|f rest IH]; intros generation p x; cbn [run_epochs]; tl_auto. Qed.
+#[export] Hint Resolve tl_run_epochs : tl.
+
+Lemma tl_history o g fits : tape_local (history o g fits).
+Proof. unfold history. tl_auto. Qed.
+
+(* a longer history extends a shorter one: the populations of the first epochs do not depend on
+   the fitness values assigned later *)
+Lemma run_epochs_app o fits1 fits2 : forall generation p x s ps s',
+    run_epochs o generation p x (fits1 ++ fits2) s = Ok (ps, s') ->
+    exists s1, run_epochs o generation p x fits1 s = Ok (firstn (length fits1) ps, s1).
+Proof.
+  induction fits1 as [|f rest IH]; intros generation p x s ps s' H; cbn [app run_epochs length firstn] in *.
+  - exists s. reflexivity.
+  - apply bindM_ok in H. destruct H as [h [s1 [H1 H2]]].
+    apply bindM_ok in H2. destruct H2 as [r [s2 [H3 H4]]].
+    apply bindM_ok in H4. destruct H4 as [ps' [s3 [H5 H6]]].
+    apply ret_ok in H6. destruct H6 as [<- <-].
+    destruct (IH _ _ _ _ _ _ H5) as [s4 H7]. exists s4.
+    unfold bindM at 1. rewrite H1. unfold bindM at 1. rewrite H3. unfold bindM at 1. rewrite H7.
+    reflexivity.
+Qed.
+
+Lemma history_app o g fits1 fits2 s ps s' :
+  history o g (fits1 ++ fits2) s = Ok (ps, s') ->
+  exists s1, history o g fits1 s = Ok (firstn (S (length fits1)) ps, s1).
+Proof.
+  unfold history. intros H.
+  apply bindM_ok in H. destruct H as [p [s1 [H1 H2]]].
+  apply bindM_ok in H2. destruct H2 as [ps' [s2 [H3 H4]]].
+  apply ret_ok in H4. destruct H4 as [<- <-].
+  destruct (run_epochs_app _ _ _ _ _ _ _ _ _ H3) as [s3 H5]. exists s3.
+  unfold bindM at 1. rewrite H1. unfold bindM at 1. rewrite H5. reflexivity.
+Qed.
+
+(* ---------- Go's seeded source: a longer tape of the same seed extends the shorter one ---------- *)
+From NeatModel Require Import GoSource.
+From Coq Require Import Uint63 PArray.
+
+Lemma rev'_cons {A} (x : A) (l : list A) : rev' (x :: l) = rev' l ++ [x].
+Proof. unfold rev'. rewrite <- !rev_alt. reflexivity. Qed.
+
+Lemma draw_loop_acc n : forall vec tap feed acc,
+    draw_loop n vec tap feed acc = rev' acc ++ draw_loop n vec tap feed [].
+Proof.
+  induction n as [|k IH]; intros vec tap feed acc; cbn [draw_loop].
+  - unfold rev' at 2. cbn. now rewrite app_nil_r.
+  - rewrite IH. rewrite (IH _ _ _ [_]). rewrite rev'_cons. rewrite <- app_assoc. reflexivity.
+Qed.
+
+Lemma draw_loop_prefix n m : forall vec tap feed acc,
+    exists w, draw_loop (n + m) vec tap feed acc = draw_loop n vec tap feed acc ++ w.
+Proof.
+  induction n as [|k IH]; intros vec tap feed acc; cbn [Nat.add draw_loop].
+  - exists (draw_loop m vec tap feed []). apply draw_loop_acc.
+  - apply IH.
+Qed.
+
+Lemma go_tape_prefix seed n1 n2 : n1 <= n2 -> exists w, go_tape seed n2 = go_tape seed n1 ++ w.
+Proof.
+  intros Hle. unfold go_tape.
+  replace (Z.to_nat n2) with (Z.to_nat n1 + (Z.to_nat n2 - Z.to_nat n1))%nat by lia.
+  apply draw_loop_prefix.
+Qed.
+
+(* two runs from the same seed agree, however many raw draws were laid out beforehand *)
+Lemma tape_local_extend {A} (m : @M st A) t w e a s1 :
+  tape_local m ->
+  m {| s_tape := t; s_env := e |} = Ok (a, s1) ->
+  m {| s_tape := t ++ w; s_env := e |} = Ok (a, {| s_tape := s_tape s1 ++ w; s_env := s_env s1 |}).
+Proof.
+  intros Hm H. destruct s1 as [t1 e1]. destruct (Hm _ _ _ _ _ H) as [used [-> Hu]].
+  rewrite <- app_assoc. apply Hu.
+Qed.
+
+Lemma go_tape_history_extend o g fits seed n1 n2 e ps s1 :
+  n1 <= n2 ->
+  history o g fits {| s_tape := go_tape seed n1; s_env := e |} = Ok (ps, s1) ->
+  exists s2, history o g fits {| s_tape := go_tape seed n2; s_env := e |} = Ok (ps, s2) /\ s_env s2 = s_env s1.
+Proof.
+  intros Hle H. destruct (go_tape_prefix seed _ _ Hle) as [w ->].
+  eexists. split; [apply (tape_local_extend _ _ w _ _ _ (tl_history o g fits) H)|]. reflexivity.
+Qed.
+
+Lemma go_tape_history_unique o g fits seed n1 n2 e ps1 s1 ps2 s2 :
+  history o g fits {| s_tape := go_tape seed n1; s_env := e |} = Ok (ps1, s1) ->
+  history o g fits {| s_tape := go_tape seed n2; s_env := e |} = Ok (ps2, s2) ->
+  ps1 = ps2 /\ s_env s1 = s_env s2.
+Proof.
+  intros H1 H2. destruct (Z.le_ge_cases n1 n2) as [Hle|Hge].
+  - destruct (go_tape_history_extend _ _ _ _ _ _ _ _ _ Hle H1) as [s3 [H3 E3]].
+    rewrite H3 in H2. injection H2 as <- <-. now split.
+  - destruct (go_tape_history_extend _ _ _ _ _ _ _ _ _ Hge H2) as [s3 [H3 E3]].
+    rewrite H3 in H1. injection H1 as <- <-. now split.
+Qed.
+
+(* the predicate has teeth: a computation that looks at the length of the remaining tape is not
+   tape-local (this is the primitive [pick_pair] uses for its fuel) *)
+Lemma tape_len_not_local : ~ tape_local tape_len.
+Proof.
+  intros H.
+  set (e := {| innovs := []; next_innov := 0; next_node := 0 |}).
+  destruct (H [0] e 1%nat [0] e eq_refl) as [used [E Hu]].
+  assert (used = []) as ->.
+  { destruct used as [|x [|y used]]; [reflexivity|discriminate|].
+    apply (f_equal (@List.length Z)) in E. cbn in E. rewrite app_length in E. cbn in E. lia. }
+  specialize (Hu []). cbn in Hu. discriminate.
+Qed.
